@@ -377,6 +377,41 @@ CLONE = [
 """, "")), (R, sub("        // Clone the values into the target interner\n", "        self.strings\n            .try_reserve(source.strings.len())\n            .map_err(|_| LassoError::new(LassoErrorKind::FailedAllocation))?;\n"))]),
 ]
 
+U = "src/util.rs"
+U_SIZE_HINT = "    #[cfg_attr(feature = \"inline-more\", inline)]\n    fn size_hint(&self) -> (usize, Option<usize>) {\n        self.iter.size_hint()\n    }\n"
+
+ITERS = [
+    ("i-next-back-calls-next", "Iter::next_back implemented with self.iter.next()", "fail", [(U, sub("self.iter.next_back().map(iter_element)", "self.iter.next().map(iter_element)"))]),
+    ("i-nth-back-plus1", "Iter::nth_back(n) calls nth_back(n + 1)", "fail", [(U, sub("self.iter.nth_back(n).map(iter_element)", "self.iter.nth_back(n + 1).map(iter_element)"))]),
+    ("i-strings-nth-back-plus1", "Strings::nth_back(n) calls nth_back(n + 1)", "fail", [(U, sub("self.iter.nth_back(n).copied()", "self.iter.nth_back(n + 1).copied()"))]),
+    ("i-strings-next-calls-next-back", "Strings::next implemented with self.iter.next_back()", "fail", [(U, sub("self.iter.next().copied()", "self.iter.next_back().copied()"))]),
+    ("i-strings-copied-dropped", "Strings::next without .copied() (a type error in rustc; here a reference where a value is due)", "fail", [(U, sub("self.iter.next().copied()", "self.iter.next()"))]),
+    ("i-elem-no-deref", "iter_element returns `string` without the deref (a type error in rustc)", "fail", [(U, sub("        *string,\n", "        string,\n"))]),
+    ("i-elem-key-plus1", "iter_element makes the key from key + 1", "fail", [(U, sub("K::try_from_usize(key)", "K::try_from_usize(key + 1)"))]),
+    ("i-size-hint-const", "Iter::size_hint returns (0, None)", "fail", [(U, sub("        self.iter.size_hint()\n", "        (0, None)\n", nth=0, count=2))]),
+    ("i-strings-size-hint-removed", "Strings::size_hint removed (std default (0, None); default len asserts)", "fail", [(U, sub(U_SIZE_HINT, "", nth=1, count=2))]),
+    ("i-field-type-no-enumerate", "struct Iter's field typed slice::Iter (a type error in rustc; here the struct's source differs)", "fail", [(U, sub("    iter: iter::Enumerate<slice::Iter<'a, &'a str>>,\n    __key", "    iter: slice::Iter<'a, &'a str>,\n    __key"))]),
+    ("i-ctor-other-field", "Iter::from_rodeo iterates another field", "fail", [(U, sub("iter: rodeo.strings.iter().enumerate(),", "iter: rodeo.other.iter().enumerate(),", nth=0, count=3))]),
+    ("i-reader-iter-wrong-ctor", "RodeoReader::iter calls Iter::from_rodeo", "fail", [(RDR, sub("Iter::from_reader(self)", "Iter::from_rodeo(self)"))]),
+    ("i-rodeo-strings-wrong-type", "Rodeo::strings calls Iter::from_rodeo", "fail", [(R, sub("Strings::from_rodeo(self)", "Iter::from_rodeo(self)"))]),
+    ("i-into-iter-strings", "IntoIterator for &RodeoResolver calls self.strings()", "fail", [(RSV, sub("    fn into_iter(self) -> Self::IntoIter {\n        self.iter()", "    fn into_iter(self) -> Self::IntoIter {\n        self.strings()"))]),
+    ("i-l-from-reader-rev", "Strings::from_reader built from .iter().rev()", "lost", [(U, sub("iter: rodeo.strings.iter(),", "iter: rodeo.strings.iter().rev(),", nth=1, count=3))]),
+    ("i-l-len-override", "ExactSizeIterator for Iter gets fn len = self.iter.len() + 1", "lost", [(U, sub("impl<'a, K: Key> ExactSizeIterator for Iter<'a, K> {}", "impl<'a, K: Key> ExactSizeIterator for Iter<'a, K> {\n    fn len(&self) -> usize { self.iter.len() + 1 }\n}"))]),
+    ("i-l-nth-override", "Iterator for Iter gets a hand-written nth", "lost", [(U, sub("    type Item = (K, &'a str);\n", "    type Item = (K, &'a str);\n\n    fn nth(&mut self, n: usize) -> Option<Self::Item> {\n        self.iter.nth(n + 1).map(iter_element)\n    }\n"))]),
+    ("i-l-count-override", "Iterator for Strings gets fn count", "lost", [(U, sub("    type Item = &'a str;\n", "    type Item = &'a str;\n    fn count(self) -> usize { 0 }\n"))]),
+    ("i-l-zip", "Enumerate replaced by (0..).zip(..)", "lost", [(U, sub("iter: rodeo.strings.iter().enumerate(),", "iter: (0..).zip(rodeo.strings.iter()),", nth=0, count=3))]),
+    ("i-l-skip", "Iter::next through .skip(1)", "lost", [(U, sub("self.iter.next().map(iter_element)", "self.iter.skip(1).next().map(iter_element)"))]),
+    ("i-l-closure", "Iter::next maps another closure", "lost", [(U, sub("self.iter.next().map(iter_element)", "self.iter.next().map(|(k, s)| iter_element((k + 1, s)))"))]),
+    ("i-l-unwrap-or-else", "iter_element falls back to key 0 instead of unreachable!()", "lost", [(U, sub("unwrap_or_else(|| unreachable!())", "unwrap_or_else(|| K::try_from_usize(0).unwrap())"))]),
+    ("i-l-inherent-next", "an inherent Iter::next shadows the trait method", "lost", [(U, sub("fn iter_element<'a, K>(", "impl<'a, K> Iter<'a, K> {\n    pub fn next(&mut self) -> Option<usize> { None }\n}\n\nfn iter_element<'a, K>("))]),
+    ("i-l-macro-impl", "a macro invocation mentioning Iter", "lost", [(U, sub("fn iter_element<'a, K>(", "more_impls!(Iter);\n\nfn iter_element<'a, K>("))]),
+    ("i-h-reorder", "impl blocks and iter_element moved around", "pass", [(U, move_block("impl<'a, K> DoubleEndedIterator for Strings<'a, K>", "// slice::Iter is exact-size.\n", "impl<'a, K> Iterator for Strings<'a, K>")), (U, move_block("fn iter_element<'a, K>", "        *string,\n    )\n}\n", "// #[derive(Debug)]\n// pub struct LockedIter"))]),
+    ("i-h-comments-attrs", "comments and attributes added", "pass", [(U, sub("    fn next_back(&mut self) -> Option<(K, &'a str)> {\n", "    #[inline(always)]\n    #[allow(clippy::all)]\n    // a comment\n    fn next_back(&mut self) -> Option<(K, &'a str)> {\n        /* block comment */\n"))]),
+    ("i-h-rename-pattern", "iter_element's tuple pattern renamed", "pass", [(U, sub("(key, string): (usize, &&'a str)", "(idx, s): (usize, &&'a str)")), (U, sub("K::try_from_usize(key)", "K::try_from_usize(idx)")), (U, sub("        *string,", "        *s,"))]),
+    ("i-h-eta", "self.iter.next().map(|e| iter_element(e))", "pass", [(U, sub("self.iter.next().map(iter_element)", "self.iter.next().map(|e| iter_element(e))"))]),
+    ("i-h-rename-params", "nth_back's and a constructor's parameter renamed", "pass", [(U, sub("fn nth_back(&mut self, n: usize) -> Option<&'a str> {\n        self.iter.nth_back(n).copied()", "fn nth_back(&mut self, count: usize) -> Option<&'a str> {\n        self.iter.nth_back(count).copied()")), (U, sub("pub(crate) fn from_resolver(rodeo: &'a RodeoResolver<K>) -> Self {\n        Self {\n            iter: rodeo.strings.iter(),", "pub(crate) fn from_resolver(res: &'a RodeoResolver<K>) -> Self {\n        Self {\n            iter: res.strings.iter(),"))]),
+]
+
 SUITES = {
     "keys": {"files": [K], "runner": "run_keys.sh", "mutations": KEYS},
     "arena": {"files": [S, BK], "runner": "run_arena.sh", "mutations": ARENA},
@@ -385,4 +420,5 @@ SUITES = {
     "threaded": {"files": [T], "runner": "run_threaded.sh", "mutations": THREADED},
     "views": {"files": [RDR, RSV, R], "runner": "run_views.sh", "mutations": VIEWS},
     "clone": {"files": [R], "runner": "run_clone.sh", "mutations": CLONE},
+    "iters": {"files": [U, R, RDR, RSV], "runner": "run_iters.sh", "mutations": ITERS},
 }
